@@ -25,8 +25,9 @@ DATA = {
     "lateDamage": [["1", "a"], ["2", "b"], ["3", "c"], ["y", "d"]],
 }
 RAW = {"lateDamage": '1,a\r\n2,b\r\n3,c\r\n4,"d"x\r\n5,e\r\n'}
-UNTIL = {"absent": [], "all": ["--until", "-1"], "0": ["--until", "0"], "k2": ["--until", "2"], "k9": ["--until", "9"]}
-LIMIT = {"absent": None, "all": None, "0": 0, "k2": 2, "k9": 9}
+UNTIL = {"absent": [], "all": ["--until", "-1"], "0": ["--until", "0"], "k2": ["--until", "2"], "k9": ["--until", "9"],
+         "huge": ["--until", str(2 ** 63)]}
+LIMIT = {"absent": None, "all": None, "0": 0, "k2": 2, "k9": 9, "huge": 2 ** 63}
 
 
 def cid_rows(storage, broken=False):
@@ -145,11 +146,14 @@ def api_verdicts(report, paths, storage):
                 rejected = False
             except errors.DataError:
                 rejected = True
+            except Exception as error:  # noqa
+                rejected = "%s: %s" % (type(error).__name__, error)
             report.replayed += 1
             if rejected != expected:
                 report.violation("c18", {"api": [kind, until, storage]}, expected, rejected,
-                                 "%s: cutplace.validate(%s file, validate_until=%r) %s it but the limit rule says it is %s" % (
-                                     storage, kind, limit, "rejects" if rejected else "accepts", "rejected" if expected else "accepted"))
+                                 "%s: cutplace.validate(%s file, validate_until=%r) %s but the limit rule says it is %s" % (
+                                     storage, kind, limit, {True: "rejects it", False: "accepts it"}.get(rejected, "fails with %s" % rejected),
+                                     "rejected" if expected else "accepted"))
 
 
 def named_pipes(report, paths, folder):
